@@ -281,6 +281,8 @@ class Output(BaseOutput):
         # File finished?
         if self.local_record_count == self.local_num_records:
             self.write_particle_variables(state)
+            # Needed for warm start, max(pid) + 1 is too low if the last particles died
+            self.nc.particles_released = np.int32(state.npid)
             self.nc.close()
             # New file?
             if self.record_count < self.num_records:
